@@ -5,7 +5,7 @@
 #include "senders.hpp"
 
 namespace vs {
-    constexpr int N_SHAPES = 16;
+    constexpr int N_SHAPES = 20;
 
     inline outcome ref_then(outcome o, int k, bool throws)
     {
@@ -35,6 +35,11 @@ namespace vs {
         case 13: return o.first == c_value ? val(o.second + 7 * (o.second + 1)) : o;    // then(tuple) | split_tuple | when_all
         case 14: return o;                                                 // continues_on | bulk(5)
         case 15: return ref_then(ref_then(o, k, false), k + 1, false);     // then | continues_on | then (two levels)
+        // drop_operation_state after adaptors that keep the error/value in their own operation state
+        case 16: return o.first == c_value ? val(o.second + 7 * k) : o;    // when_all | drop_operation_state | then
+        case 17: return o;                                                 // ensure_started | drop_operation_state
+        case 18: return o;                                                 // continues_on | bulk | drop_operation_state
+        case 19: return o.first == c_value ? val(o.second + 7 * k) : o;    // when_all_vector | drop_operation_state | then
         default: return o;
         }
     }
@@ -84,6 +89,19 @@ namespace vs {
             break;
         }
         case 14: f(std::move(leaf) | ex::continues_on(sched) | ex::bulk(5, [](int, tv& x) { (void) x.get(); })); break;
+        case 16:
+            f(ex::when_all(std::move(leaf), ex::just(tv(k))) | ex::drop_operation_state() | ex::then([](tv a, tv b) { return tv(a.get() + 7 * b.get()); }));
+            break;
+        case 17: f(ex::ensure_started(std::move(leaf)) | ex::drop_operation_state()); break;
+        case 18: f(std::move(leaf) | ex::continues_on(sched) | ex::bulk(5, [](int, tv& x) { (void) x.get(); }) | ex::drop_operation_state()); break;
+        case 19:
+        {
+            std::vector<ex::unique_any_sender<tv>> v;
+            v.emplace_back(std::move(leaf));
+            v.emplace_back(ex::just(tv(k)));
+            f(ex::when_all_vector(std::move(v)) | ex::drop_operation_state() | ex::then([](std::vector<tv> r) { return tv(r[0].get() + 7 * r[1].get()); }));
+            break;
+        }
         default:
             f(std::move(leaf) | ex::then([k](tv x) { return tv(x.get() * 3 + k); }) | ex::continues_on(sched) |
                 ex::then([k](tv x) { return tv(x.get() * 3 + k + 1); }));
